@@ -224,6 +224,13 @@ theorem variable_index_complete (pat cap rest : List Tok) (h : GMatch pat cap re
     varIndex pat (cap ++ rest) i = .ok (some (i + cap.length)) :=
   varIndex_complete pat cap rest h i
 
+/-- **determinism of captures**: a request has at most one greedy instance of a variable's
+sub-pattern in front of it, so what a variable captures depends on the request alone. -/
+theorem capture_unique (pat cap1 rest1 cap2 rest2 : List Tok)
+    (h1 : GMatch pat cap1 rest1) (h2 : GMatch pat cap2 rest2) (he : cap1 ++ rest1 = cap2 ++ rest2) :
+    cap1 = cap2 ∧ rest1 = rest2 :=
+  greedy_instance_unique pat cap1 rest1 cap2 rest2 h1 h2 he
+
 /-- `accepted_rules_are_routed` with the request described declaratively: `EdgeInst` reads the
 binding's edges as a pattern — a literal or verb edge is the next two request tokens spelled out,
 a variable edge covers a non-empty greedy instance of its sub-pattern — with no reference to
@@ -473,3 +480,4 @@ end Larking.Props.C02
 #print axioms Larking.Props.C02.grammar_binding_obeys_g
 #print axioms Larking.Props.C02.grammar_rules_are_routed
 #print axioms Larking.Props.C02.grammar_rule_order_independent
+#print axioms Larking.Props.C02.capture_unique
